@@ -496,6 +496,14 @@ example :
     (run .sysv init evs).2 = [.brk 18 true, .cb 1 1, .rearm .term, .query true, .brk 18 true, .cb 1 1, .rearm .int,
                                .brk 18 true, .exit1] := by decide
 
+/-- a registration attempt while no handler object exists (`BasicSolver::SetHandler`) changes nothing: after
+    `C R(1,1) D N(2,2)` a signal invokes no callback -/
+example :
+    let prog := [Macro.ctor, .reg 1 1, .dtor, .nreg 2 2, .work]
+    let evs := schedule (expandProg Layout.current prog) 0 [(16, .int), (17, .int)]
+    wfProg Layout.current prog = true ∧
+    (run .bsd init evs).2 = [.brk 0 true, .rearm .int, .query false, .brk 0 true, .exit1] := by decide
+
 /-- before installation the default action kills the process -/
 example : (run .bsd init (schedule (expandProg .pinned [.ctor]) 0 [(3, .term)])).1.halted = some (.killed .term) := by decide
 
